@@ -22,6 +22,33 @@ def handle : Handler := fun op j =>
         let b := stage id isAsync ⟨0, s, contig⟩ (fun _ => [])
         outs := outs.push (match b with | .alias _ => "alias" | .fresh _ => "fresh")
       pure (Json.mkObj [("kinds", Json.arr outs)])
+  | "stage_history" => some do
+      -- memory images are lists of byte lists indexed by address; ops: {"take": [leaf...]}, {"mutate": mem}, {"write": [k, i]}
+      let parseMem (m : Json) : Except String Mem := do
+        let cells ← (← m.getArr?).toList.mapM (fun c => do (← c.getArr?).toList.mapM (fun x => x.getNat?))
+        pure (fun a => cells.getD a [])
+      let parseLeaf (l : Json) : Except String Leaf := do
+        let ser ← getStr l "ser"
+        let s ← match ser with
+          | "buffer_protocol" => pure Serializer.bufferProtocol
+          | "torch_save" => pure Serializer.torchSave
+          | _ => throw s!"bad serializer {ser}"
+        pure ⟨← getNat l "addr", s, ← getBool l "contig"⟩
+      let mem0 ← parseMem (← j.getObjVal? "mem0")
+      let ops ← (← getArr j "ops").toList.mapM (fun o => do
+        match o.getObjVal? "take" with
+        | .ok t => do pure (Op.asyncTake (← (← t.getArr?).toList.mapM parseLeaf))
+        | .error _ =>
+          match o.getObjVal? "mutate" with
+          | .ok m => do
+              let mem ← parseMem m
+              pure (Op.mutate (fun _ => mem))
+          | .error _ => do
+              let w ← getNatList o "write"
+              pure (Op.write (w.getD 0 0) (w.getD 1 0)))
+      let s := hrun id (HState.init mem0) ops
+      pure (Json.mkObj [("written", Json.arr (s.written.map (fun w =>
+        Json.mkObj [("snap", w.1), ("i", w.2.1), ("bytes", ofNatList w.2.2)])).toArray)])
   | _ => none
 
 end Ts.Drv.StageOps
